@@ -178,3 +178,118 @@ CONCRETE["e2e:names"] = {
              "multisets of 2..5; every printed name resolved through two path spellings; 18 junk paths incl. unicode",
     "timeout_s": 60.0, "budget_quick": 200, "budget_thorough": 1500,
 }
+
+
+# ================================================================================== CDDA: titles from the cue sheet
+def _build_cdda(inputs):
+    L = _lib()
+
+    def run():
+        tracks = []
+        for i, t in enumerate(inputs["titles"]):
+            tracks.append({"number": i + 1, "mode": "AUDIO", "title": t, "indices": [(1, 0, 0, 2 * i)]})
+        n = len(tracks)
+        binb = L.pcm_words(7, (2352 * 2 * n + inputs.get("tail", 0)) // 2 + 1)[:2352 * 2 * n + inputs.get("tail", 0)]
+        cue = L.cw.build_cue(tracks)
+        with L.Workdir() as w:
+            sub = w.sub("in")
+            cue_path = L.cw.write_bin_cue(sub, binb, cue)
+            dest = w.sub(os.path.join("a", "b", "dest"))
+            before = set(L.read_tree(w.path))
+            stdout, err = L.do_export(cue_path, dest)
+            after = L.read_tree(w.path)
+            pre = "a/b/dest/"
+            res = {"files": {k[len(pre):]: v for k, v in after.items() if k.startswith(pre)},
+                   "outside": sorted(k for k in after if not k.startswith(pre) and k not in before),
+                   "stdout": stdout, "error": type(err).__name__ if err else None, "error_text": repr(err)[:200] if err else None,
+                   "bin": binb}
+            o, e = L.do_ls(cue_path, "")
+            res["ls_root"] = {"out": o, "error": type(e).__name__ if e else None}
+            res["names"] = L.ls_table_names(o)
+            res["resolve"] = []
+            for nm in res["names"]:
+                if nm.strip():
+                    o2, e2 = L.do_ls(cue_path, nm)
+                    res["resolve"].append({"name": nm, "out": o2, "error": type(e2).__name__ if e2 else None})
+            return res
+    return {"call": run, "env": {}}
+
+
+def _oracle_cdda(inputs, kind, val, env):
+    L = _lib()
+    if kind != "return":
+        return []
+    if val["error"]:
+        return [f"export-raised({val['error']}: {val['error_text']})"]
+    bad = []
+    n = len(inputs["titles"])
+    files = val["files"]
+    if val["outside"]:
+        bad.append(f"C06.inside-destination(written outside: {val['outside']})")
+    n_lines = len(L.exported_lines(val["stdout"]))
+    if n_lines != len(files) + len(val["outside"]):
+        bad.append(f"C06.files-on-disk-equal-Exported-lines(lines={n_lines},files={len(files) + len(val['outside'])})")
+    if len(files) + len(val["outside"]) != n:
+        bad.append(f"C03.one-wav-per-track(tracks={n},files={len(files) + len(val['outside'])})")
+    for p in files:
+        cp = L.component_problems(p)
+        if cp:
+            bad.append(f"C06.component-safe({p!r}: {cp})")
+    # every track's bytes appear in exactly one file
+    binb = val["bin"]
+    want = [binb[2352 * 2 * i: (2352 * 2 * (i + 1) if i + 1 < n else len(binb) - (len(binb) - 2352 * 2 * i) % 4)] for i in range(n)]
+    datas = []
+    for p, d in list(files.items()):
+        info, probs = L.wav_info(d)
+        if info is None or probs:
+            bad.append(f"C04.well-formed({p}: {probs[:2]})")
+        else:
+            datas.append(info["data"])
+            if info["fmt"]["channels"] != 2 or info["fmt"]["sample_rate"] != 44100:
+                bad.append(f"C03.16-bit-stereo-44100({p})")
+    for i, wdat in enumerate(want):
+        if datas.count(wdat) != 1 and not val["outside"]:
+            bad.append(f"C03.track-bytes-are-the-bin-slice(track {i + 1}: found in {datas.count(wdat)} files)")
+    names = val["names"]
+    if len(set(names)) != len(names):
+        bad.append(f"C10.sibling-names-distinct({sorted(x for x in names if names.count(x) > 1)})")
+    for r in val["resolve"]:
+        if r["error"] or "was not found" in r["out"]:
+            bad.append(f"C10.listed-name-resolves({r['name']!r}: {r['error'] or r['out'].strip()[:60]})")
+    return bad
+
+
+TITLES = ["Song", "Song", "../../escaped", "a/b", "a\\b", "..", ".", "x:y", "tab\there", "quote's", "semi;colon", " lead", "trail ",
+          "dot.", "A -L", "A -R", "", None, "CON", "ü"[:0] + "plain 2", "(1)", "Song (2)", "#1", "-x", "*?<>|"]
+
+
+def _small_cdda(tier, seed, shard=(0, 1)):
+    import itertools
+    import random
+    cases = [["Song", "Song"], ["../../escaped"], ["a/b", "a\\b"], ["..", "."], ["Song", "Song (2)", "Song"], [None, None], ["A -L", "A -R"],
+             ["x", "../x"], ["", " "]]
+    for t in TITLES:
+        cases.append([t])
+    rnd = random.Random(4000 + seed)
+    for _ in range(10 if tier == "quick" else 200):
+        cases.append([rnd.choice(TITLES) for _ in range(rnd.randint(1, 4))])
+    k = 0
+    for c in cases:
+        k += 1
+        if k % shard[1] == shard[0]:
+            yield {"titles": c, "tail": rnd.choice((0, 1, 3, 5))}
+
+
+@contract("e2e:cdda_names", props=["C06", "C10", "C03"], abstract=True)
+def _cn(c):
+    pass
+
+
+CONCRETE["e2e:cdda_names"] = {
+    "build": _build_cdda, "small": _small_cdda, "oracle": _oracle_cdda, "shards": 4,
+    "nontrivial": lambda i, s: s["kind"] == "return",
+    "bound": "cue sheets of 1..4 audio tracks with TITLEs from a 25-entry pool (duplicates, '/', '\\\\', '..', control characters, "
+             "leading/trailing blanks, empty, missing), bins with 0..5 trailing bytes; destination two levels below the work directory "
+             "so that an escaping path is observable",
+    "timeout_s": 60.0, "budget_quick": 120, "budget_thorough": 600,
+}
